@@ -93,6 +93,13 @@ def run(tier):
         "no_mutation": space.core_schema(mutation=False).sdl(),
         "no_subscription": space.core_schema(subscription=False).sdl(),
     }
+    # an explicit `schema { query: Q }` block that lists no mutation / subscription root, while ordinary object types
+    # carry the conventional names Mutation / Subscription (with the very fields the operations select)
+    full = space.core_schema()
+    shadow_types = [t for t in space.core_schema(mutation=False, subscription=False).types.values()]
+    for conventional, real in (("Mutation", "M"), ("Subscription", "Sub")):
+        shadow_types.append(gql.obj(conventional, list(full.types[real].fields)))
+    variants["shadow_roots"] = gql.Schema(shadow_types, {"query": "Q"}, explicit=True).sdl()
     base = []
     for focus, labels, doc in space.operation_space(tier):
         if not gql.validate(schema, doc):
@@ -122,6 +129,10 @@ def run(tier):
         if op.kind == "subscription":
             cases.append({"edit": "missing_root_type", "where": "subscription", "schema": "CORE without subscription type",
                           "sdl": variants["no_subscription"], "doc": doc, "base": gql.render_doc(doc)})
+        if op.kind in ("mutation", "subscription"):
+            cases.append({"edit": "missing_root_type", "where": op.kind + " (a type of the conventional name exists, the schema block does not list it)",
+                          "schema": "CORE with `schema { query: Q }` and plain object types Mutation / Subscription",
+                          "sdl": variants["shadow_roots"], "doc": doc, "base": gql.render_doc(doc)})
     reqs = [gen_request(c["sdl"], gql.render_doc(c["doc"]), tokens=False) for c in cases]
     log(f"[C06] {len(base)} valid base operations, {len(cases)} invalid documents")
     resps = generate(reqs, progress=20000)
